@@ -323,6 +323,16 @@ def worker():
                         toks = [pat[i % p] for i in range(length)]
                         frames.append((toks, [1] * length))
                         frames.append((toks, [1 + (i * 2 >= length) for i in range(length)]))
+            # unequal group sizes whose first size times the number of groups equals the row count
+            for sizes in ((2, 1, 3), (3, 1, 2), (2, 2, 1, 3), (3, 5, 1)):
+                nn = sum(sizes)
+                contiguous = [g for g, sz in enumerate(sizes, 1) for _ in range(sz)]
+                for pat in itertools.product(a, repeat=2):
+                    if pat[0] == pat[1]:
+                        continue
+                    toks = [pat[i % 2] for i in range(nn)]
+                    frames.append((toks, contiguous))
+                    frames.append((toks, list(reversed(contiguous))))
         for toks, groups in frames:
             compare(kind, toks, groups, calls,
                     lambda hh, kw, toks=toks, groups=groups: {"mode": "inputs", "helper": hh, "kind": kind, "toks": toks, "groups": groups, "kwargs": kw, "n": len(toks)})
